@@ -187,6 +187,7 @@ type WorldFile struct {
 	VenueVid  int      `json:"venueVid"`
 	Times     []int    `json:"times"`
 	Menu      [][]Node `json:"menu"`
+	Repeats   bool     `json:"repeats"` // some attribute value is set / added more than once
 	OwnerKey  string   `json:"ownerKey"`
 	OwnerRef  string   `json:"ownerRef"`
 }
@@ -400,12 +401,13 @@ var sortTypes = map[string]search.SortType{
 	"lastmodAsc":  search.LastModifiedAsc,
 }
 
-// usesCorpusOnly reports whether the tree uses parts of the fragment that the
-// handler does not implement (panics or silently never matches) without an
-// in-memory corpus: At, Time, wholeRef.
-func usesCorpusOnly(tr []Node) bool {
+// outsideClassic reports whether the tree uses parts of the fragment that the handler
+// does not implement, or implements with another meaning, without an in-memory corpus:
+// At (panics), Time (panics), wholeRef (never matches), skipHidden (ignored), modTime
+// (the describe path only looks at the owner's claims).
+func outsideClassic(tr []Node) bool {
 	for _, n := range tr {
-		if n.HasAt || n.HasTb || n.HasTa || n.Wh != 0 {
+		if n.HasAt || n.HasTb || n.HasTa || n.Wh != 0 || n.Hid || n.HasMtb || n.HasMta {
 			return true
 		}
 	}
